@@ -525,6 +525,13 @@ def _np_allclose(a, b, *x, **k):
     return SBool(z3.simplify(z3.And(*conds)))
 
 
+def _np_isclose(a, b, rtol=1e-05, atol=1e-08, equal_nan=False):
+    """numpy's definition: |a - b| <= atol + rtol * |b|"""
+    if not has_sym(a) and not has_sym(b):
+        return _np.isclose(concretize(a), concretize(b), rtol=rtol, atol=atol, equal_nan=equal_nan)
+    return _emap(lambda u, v: abs(u - v) <= atol + rtol * abs(v), a, b)
+
+
 class _Random:
     """scripted symbolic draws: every call returns fresh symbols constrained to
     the documented range of the numpy function (nothing about distribution)"""
@@ -601,7 +608,7 @@ OVERRIDES = {
     'ones_like': _ctor('ones_like'), 'linspace': _ctor('linspace'),
     'arange': _ctor('arange'), 'eye': _ctor('eye'), 'identity': _ctor('identity'),
     'array': _np_array, 'asarray': _np_asarray, 'size': _np_size,
-    'sum': _np_sum, 'mean': _np_mean, 'allclose': _np_allclose,
+    'sum': _np_sum, 'mean': _np_mean, 'allclose': _np_allclose, 'isclose': _np_isclose,
 }
 
 
